@@ -24,6 +24,9 @@ fn fixtures() {
     for (name, case, note) in props::c12::fixtures() {
         write_fixture("C12", name, &case, note);
     }
+    for (name, case, note) in props::c02::fixtures() {
+        write_fixture("C02", name, &case, note);
+    }
     for (name, case, note) in props::c10::fixtures() {
         write_fixture("C10", name, &case, note);
     }
